@@ -5,7 +5,8 @@
 
    events   reset  {h}            a new behaviour starts with header list h
             filter {f, out}       FilterHeaderAction::new([f]).filter(previous out) = out
-            action {h, fs, out}   Action::filter_headers(h, 200, false, None) = out
+            action {h, fs, out}   Action::filter_headers(h, 200, false, None) = out  (three per behaviour: the action read from JSON, the
+                                  action built from ONE matched rule carrying the sequence, and from one rule per filter by descending rank)
             panic  {case, msg}    the library panicked (always a violation)
 
    A property-level disagreement does not stop the validation: it is printed as
